@@ -77,7 +77,7 @@ def build(term, ctx):
     if k == 'T':
         return build_T(term[1])
     if k == 'dict':
-        d = OrderedDict() if term[2] == 'odict' else {}
+        d = RA.DICT_KINDS[term[2]]()
         for key, sub in term[1]:
             d[key[1] if key[0] == 'k' else build_T(key[1])] = build(sub, ctx)
         return d
@@ -297,6 +297,9 @@ def composites(shape, kids, kids_of):
             out.append((['dict', [[['k', 'x'], t1], [['k', 'y'], t2]], 'dict'], 'any'))
     for t, rs in vals[:6]:
         out.append((['dict', [[['k', 'y'], t], [['k', 'x'], ['T', []]]], 'odict'], 'any'))
+        # dict specs of other mapping types: "a dict of the same type"
+        for kind in ('record', 'myod', 'counter', 'ddict'):
+            out.append((['dict', [[['k', 'y'], t], [['k', 'x'], ['T', []]]], kind], 'any'))
         if shape == 'rec':
             out.append((['dict', [[['kT', [['[', 'f']]], t], [['k', 'lit'], ['T', []]]], 'dict'], 'any'))
             out.append((['dict', [[['k', 'first'], ['val', 1]], [['kT', [['[', 'f']]], t], [['k', 'last'], ['val', 3]]], 'odict'], 'any'))
@@ -660,10 +663,14 @@ class Source:
 
 
 def run_lazy_list(case):
-    items, stop_value, skip_value, raise_at, wrap = case
+    items, stop_value, skip_value, raise_at, wrap = case[:5]
+    sub_exc = case[5] if len(case) > 5 else None      # the SUB-SPEC raises this for the item 1 (StopIteration must not be taken for the end of the target)
     src = Source(items, raise_at)
+    exc_class = {'StopIteration': StopIteration, 'LookupError': LookupError, None: None}[sub_exc]
 
     def sub(x):
+        if exc_class is not None and x == 1:
+            raise exc_class('raised by the sub-spec')
         return G.STOP if x == stop_value else G.SKIP if x == skip_value else x * 10
     want, want_pulled, want_exc = [], 0, None
     for i in range(len(items) + 1):
@@ -674,6 +681,9 @@ def run_lazy_list(case):
         if i == len(items):
             break
         want_pulled += 1
+        if exc_class is not None and items[i] == 1:
+            want_exc = sub_exc
+            break
         if items[i] == stop_value:
             break
         if items[i] != skip_value:
@@ -685,7 +695,7 @@ def run_lazy_list(case):
         exc = None
     except Exception as e:
         got, exc = None, [c.__name__ for c in type(e).__mro__ if c.__module__ == 'builtins'][0]
-    where = {'items': items, 'stop': stop_value, 'skip': skip_value, 'source_fails_at': raise_at, 'position': wrap}
+    where = {'items': items, 'stop': stop_value, 'skip': skip_value, 'source_fails_at': raise_at, 'position': wrap, 'sub_spec_raises_for_1': sub_exc}
     if exc != want_exc or (exc is None and got != want):
         return R({'expected': '%r%s' % (want, ' / ' + want_exc if want_exc else ''), 'observed': '%r / %s' % (got, exc), **where}, 'lazy-list')
     if src.pulled != want_pulled:
@@ -704,6 +714,9 @@ def gen_lazy_list(tier):
                     for raise_at in [None] + list(range(n + 1)):
                         for wrap in ('direct', 'after-step', 'dict-value'):
                             cases.append([list(items), stop_value, skip_value, raise_at, wrap])
+                            if 1 in items and n <= 3:
+                                for sub_exc in ('StopIteration', 'LookupError'):
+                                    cases.append([list(items), stop_value, skip_value, raise_at, wrap, sub_exc])
     return cases
 
 
